@@ -122,7 +122,10 @@ def ops_for(tf, ch, lazy, L):
            ('window-past-end', lambda: ch.read_data(L, 5)), ('window-at-end', lambda: ch.read_data(max(L - 1, 0), 5)),
            ('slice', lambda: ch[1:3]), ('empty-slice', lambda: ch[0:0]), ('reversed-empty', lambda: ch[5:2]),
            ('step-slice', lambda: ch[::2]), ('reverse-slice', lambda: ch[::-1]), ('neg-slice', lambda: ch[-2:]),
-           ('out-of-range-slice', lambda: ch[L + 3:L + 9])]
+           ('out-of-range-slice', lambda: ch[L + 3:L + 9]),
+           # reads that follow an integer index into the same chunk (what the index left behind must not change their type)
+           ('slice-after-index', lambda: (ch[1], ch[0:2])[1]), ('window-after-index', lambda: (ch[1], ch.read_data(0, 2))[1]),
+           ('step-slice-after-index', lambda: (ch[L - 1], ch[L - 1:L - 3:-1])[1])]
     if not lazy:
         ops.append(('data', lambda: ch.data))
     else:
